@@ -208,21 +208,42 @@ pub open spec fn words_to_bytes(h: Seq<u64>) -> Seq<u8>
     }
 }
 
-/// the final state h, serialised (64 bytes): all blocks but the last with f = FALSE, the last block (zero padded;
-/// empty only if there is no data at all) with t = total number of data bytes (key block included) and f = TRUE
-pub open spec fn blake2b_rfc_full(outlen: nat, key: Seq<u8>, salt: Seq<u8>, personal: Seq<u8>, msg: Seq<u8>) -> Seq<u8> {
+/// the final state h: all blocks but the last with f = FALSE, then the last block (zero padded; empty only if there
+/// is no data at all) with t = total number of data bytes (key block included) and f = TRUE
+pub open spec fn blake2b_final_h(outlen: nat, key: Seq<u8>, salt: Seq<u8>, personal: Seq<u8>, msg: Seq<u8>) -> Seq<u64> {
     let data = key_block(key) + msg;
     let n = blocks_before_last(data.len());
     let h = absorb_blocks(blake2b_h0(outlen, key.len(), salt, personal), data, n);
     let tail = data.subrange(128 * n as int, data.len() as int);
-    let hf = compress_rfc(h, tail + zeros((128 - tail.len()) as nat), data.len(), true);
-    words_to_bytes(hf)
+    compress_rfc(h, tail + zeros((128 - tail.len()) as nat), data.len(), true)
+}
+
+/// the final state serialised little-endian (64 bytes)
+pub open spec fn blake2b_rfc_full(outlen: nat, key: Seq<u8>, salt: Seq<u8>, personal: Seq<u8>, msg: Seq<u8>) -> Seq<u8> {
+    words_to_bytes(blake2b_final_h(outlen, key, salt, personal, msg))
 }
 
 /// BLAKE2b(outlen, key, salt, personal, msg): first `outlen` bytes of the serialised final state.
 /// salt / personal are 16 bytes each; an absent salt / personal is 16 zero bytes (then this is exactly RFC 7693).
 pub open spec fn blake2b_rfc(outlen: nat, key: Seq<u8>, salt: Seq<u8>, personal: Seq<u8>, msg: Seq<u8>) -> Seq<u8> {
     blake2b_rfc_full(outlen, key, salt, personal, msg).subrange(0, outlen as int)
+}
+
+/// an absent salt / personalisation is 16 zero bytes (libsodium: crypto_generichash_blake2b_init_salt_personal
+/// with NULL salt / personal; dryoc: `None => [0u8; 16]`)
+pub open spec fn opt16(x: Option<&[u8; 16]>) -> Seq<u8> {
+    match x {
+        Some(a) => a@,
+        None => zeros(16),
+    }
+}
+
+/// an absent key is the empty key (kk = 0)
+pub open spec fn opt_key(key: Option<&[u8]>) -> Seq<u8> {
+    match key {
+        Some(k) => k@,
+        None => Seq::empty(),
+    }
 }
 
 // ------------------------------------------------------------------------------------------------
